@@ -35,6 +35,7 @@ from .code_hash import (
     resolve_to_symbolic_names,
     HashRule,
     MementoFunctionHashRule,
+    OpaqueSymbolHashRule,
     list_dotted_names,
 )
 from .metadata import ResultType
@@ -271,6 +272,7 @@ class MementoFunction(MementoFunctionBase):
         ), "Cannot create a MementoFunction that wraps another MementoFunction"
 
         self._hash_rules = []  # type: List[HashRule]
+        self._watch_rules = []  # type: List[HashRule]
         self.fn = fn
         self.src_fn = src_fn if src_fn is not None else fn
         self.function_type = "memento_function"
@@ -456,7 +458,7 @@ class MementoFunction(MementoFunctionBase):
             if entry.as_of_generation == MementoFunction._global_fn_generation:
                 changed_rules = [
                     rule
-                    for rule in self._hash_rules
+                    for rule in self._hash_rules + self._watch_rules
                     if rule.did_change() or any(r.did_change() for r in rule.alternates)
                 ]
                 if len(changed_rules) > 0:
@@ -521,7 +523,14 @@ class MementoFunction(MementoFunctionBase):
         )
 
         # Order hash rules
-        ordered_hash_rules = sorted(hash_rules)
+        # (rules for symbols that cannot be hashed only watch for re-binding: they are not
+        # part of what hash_rules() and the dependency graph report)
+        self._watch_rules = [
+            rule for rule in hash_rules if isinstance(rule, OpaqueSymbolHashRule)
+        ]
+        ordered_hash_rules = sorted(
+            rule for rule in hash_rules if not isinstance(rule, OpaqueSymbolHashRule)
+        )
         self._hash_rules = ordered_hash_rules
 
         # Compute hash by evaluating each hash rule
